@@ -271,7 +271,7 @@ def run(run, tier, seed):
     d_un = 3 if tier == 'quick' else 4
     res = explore.bfs(expand, d_un, seed=seed, merge=False, bound={'depth': d_un, 'merged': False})
     run.add_part('plugin_bfs_unmerged', res)
-    n_long = 70 if tier == 'quick' else 300
+    n_long = 1010 if tier == 'quick' else 3000      # past the 1000th connection name (ALL), past 64 closed connections
     res = explore.prod(lambda: iter([{'history': long_history(n_long)}]), lambda c: Eval(run_hist(c['history'])[0], nontrivial=True, transitions=len(c['history'])),
                        workers=1, bound={'short_lived_connections': n_long})
     res.samples = [{'long_history': n_long}]
